@@ -228,6 +228,104 @@ pub fn run(run: &Run) {
         }
     });
 
+    // ---- value patterns: sparse, banded, indicator operands, zero rows and columns, all zeros ------------
+    // (the definition does not depend on the values: a shortcut taken for special data must give the same product)
+    let pat = |kind: usize, r: usize, c: usize, base: i64| -> Vec<f64> {
+        let d = fill(r, c, base);
+        (0..r * c)
+            .map(|k| {
+                let (i, j) = (k / c, k % c);
+                match kind {
+                    0 => d[k],
+                    1 => if k % 9 == 0 { d[k] } else { 0.0 },
+                    2 => if (i as i64 - j as i64).abs() <= 1 { d[k] } else { 0.0 },
+                    3 => if i % 3 == 1 || i + 1 == r { 0.0 } else { d[k] },
+                    4 => if j % 4 == 2 || j + 1 == c { 0.0 } else { d[k] },
+                    5 => if j == (i * 5) % c { 1.0 } else { 0.0 },
+                    6 => if k % 16 == 3 { -d[k] } else { 0.0 },
+                    _ => 0.0,
+                }
+            })
+            .collect()
+    };
+    const PATS: [&str; 8] = ["dense", "every-9th", "banded", "zero-rows", "zero-columns", "indicator", "negative-every-16th", "all-zero"];
+    let mids = [3usize, 8, 16, 17, 24, 33, 40];
+    let mut pjobs: Vec<(usize, usize, usize, bool)> = Vec::new();
+    for &m in &mids {
+        for &l in &mids {
+            for &n in &mids {
+                pjobs.push((m, l, n, false));
+            }
+        }
+    }
+    // products of at least 2^22 multiply-adds
+    let large: Vec<(usize, usize, usize)> = if run.thorough() { vec![(168, 150, 170), (170, 150, 168), (256, 128, 129), (130, 260, 131), (4100, 33, 32), (33, 4100, 40), (320, 320, 320)] } else { vec![(168, 150, 170), (170, 150, 168), (256, 128, 129), (130, 260, 131)] };
+    for &(m, l, n) in &large {
+        pjobs.push((m, l, n, true));
+    }
+    run.bound("value patterns", format!("{} operand patterns for A × 4 (2 for the large shapes) for B × 4 flags on {}^3 mid-size shapes and {:?}", PATS.len(), mids.len(), large));
+    let mut pcases: Vec<(usize, usize, usize, usize, usize)> = Vec::new();
+    for &(m, l, n, big) in &pjobs {
+        for pa in 0..8usize {
+            for &pb in if big { &[0usize, 1][..] } else { &[0usize, 1, 3, 4][..] } {
+                pcases.push((m, l, n, pa, pb));
+            }
+        }
+    }
+    pcases.par_iter().for_each(|&(m, l, n, pa, pb)| {
+        for &ta in &[false, true] {
+            for &tb in &[false, true] {
+                let (ar, ac) = if ta { (l, m) } else { (m, l) };
+                let (br, bc) = if tb { (n, l) } else { (l, n) };
+                let a = pat(pa, ar, ac, 0);
+                let b = pat(pb, br, bc, 50);
+                let (want, _, _) = ref_mm(&a, ar, ac, ta, &b, br, bc, tb).unwrap();
+                run.case();
+                run.tr();
+                run.ok();
+                run.nontrivial(1);
+                let site = format!("matmul/{}{}", fl(ta), fl(tb));
+                match guard(|| matmul(&a, &b, ar, br, ta, tb)) {
+                    Ok(got) => {
+                        if !same(&got, &want) {
+                            let bad = (0..want.len().min(got.len())).find(|&k| got[k] * 16.0 != want[k] as f64).unwrap_or(0);
+                            run.violate(&format!("{}/wrong-values/value-pattern", site), || format!("A {}x{} ({}), B {}x{} ({}), ta={}, tb={}: entry #{} is {}, want {}/16 ({} outputs, want {})", ar, ac, PATS[pa], br, bc, PATS[pb], ta, tb, bad, got.get(bad).copied().unwrap_or(f64::NAN), want.get(bad).copied().unwrap_or(0), got.len(), want.len()));
+                        } else {
+                            run.regime(&format!("value-pattern:{}", PATS[pa]));
+                        }
+                    }
+                    Err(p) => run.violate(&format!("{}/panic-on-conformable", site), || format!("A {}x{} ({}), B {}x{} ({}), ta={}, tb={}: {}", ar, ac, PATS[pa], br, bc, PATS[pb], ta, tb, p)),
+                }
+                if m * l * n <= 40 * 40 * 40 {
+                    match guard(|| matmul_blocked(&a, &b, ar, br, ta, tb, 8)) {
+                        Ok(got) => {
+                            if !same(&got, &want) {
+                                run.violate(&format!("matmul_blocked/{}{}/wrong-values/value-pattern", fl(ta), fl(tb)), || format!("A {}x{} ({}), B {}x{} ({}), ta={}, tb={}", ar, ac, PATS[pa], br, bc, PATS[pb], ta, tb));
+                            }
+                        }
+                        Err(p) => run.violate(&format!("matmul_blocked/{}{}/panic-on-conformable", fl(ta), fl(tb)), || format!("A {}x{} ({}), B {}x{} ({}): {}", ar, ac, PATS[pa], br, bc, PATS[pb], p)),
+                    }
+                    // the trait form on Matrix objects
+                    let (am, bm) = (Matrix::new(a.clone(), ar as i32, ac as i32), Matrix::new(b.clone(), br as i32, bc as i32));
+                    let r = guard(|| match (ta, tb) {
+                        (false, false) => am.dot(&bm),
+                        (true, false) => am.t_dot(&bm),
+                        (false, true) => am.dot_t(&bm),
+                        (true, true) => am.t_dot_t(&bm),
+                    });
+                    match r {
+                        Ok(g) => {
+                            if g.shape() != [m, n] || !same(&g.data.v, &want) {
+                                run.violate("Dot/MatMat/wrong-values/value-pattern", || format!("A {}x{} ({}), B {}x{} ({}), ta={}, tb={}", ar, ac, PATS[pa], br, bc, PATS[pb], ta, tb));
+                            }
+                        }
+                        Err(p) => run.violate("Dot/MatMat/panic-on-conformable", || format!("A {}x{} ({}), B {}x{} ({}): {}", ar, ac, PATS[pa], br, bc, PATS[pb], p)),
+                    }
+                }
+            }
+        }
+    });
+
     // ---- Dot trait: Matrix · Matrix ------------------------------------------------------
     let sd = run.tier.pick(5usize, 9usize);
     run.bound("Dot shape pairs", format!("(r1,c1,r2,c2) in 1..={}^4, all 16 method×form combinations", sd));
